@@ -279,7 +279,7 @@ fn analyse(input: &Input) -> Analysis {
         ranges.dedup();
         for (o, wd) in extra {
             if let Some((s, l, tag)) = ranges.iter().find(|(s, l, _)| o >= *s && o + wd as usize <= s + l) {
-                fields.push(Field { off: o, w: wd, role: "value", level: "table", tbl: tag.clone(), name: "hook".to_string(), tstart: *s, tlen: *l });
+                fields.push(Field { off: o, w: wd, role: "value", level: "table", tbl: tag.clone(), name: "hook".to_string(), tstart: *s, tlen: *l, selfv: -1, parentv: -1 });
             }
         }
     }
@@ -376,6 +376,97 @@ struct Job {
     faults: Vec<CF>,
 }
 
+type Champ = BTreeMap<String, BTreeSet<String>>;
+
+/// field name without what tells instances of one kind of field apart: "[..]" contents and the
+/// running number of components, records, ranges, axes, operands
+fn norm_name(n: &str) -> String {
+    let mut t = String::new();
+    let mut depth = 0;
+    for ch in n.chars() {
+        match ch {
+            '[' => depth += 1,
+            ']' => depth -= 1,
+            c if depth == 0 => t.push(c),
+            _ => {}
+        }
+    }
+    for kw in ["comp", "rec", "range", "axis", "arg", "byte", "coord", "word", "sub", "Offset", "rule", "peak", "start", "end", "subr", "gsubr", "lsubr"] {
+        let mut out = String::new();
+        let mut rest = t.as_str();
+        while let Some(k) = rest.find(kw) {
+            out.push_str(&rest[..k + kw.len()]);
+            rest = rest[k + kw.len()..].trim_start_matches(|c: char| c.is_ascii_digit());
+        }
+        out.push_str(rest);
+        t = out;
+    }
+    t
+}
+
+/// Quick tier: for every table kind, inputs that between them have every kind of structural
+/// non-value field the walk finds in that table kind anywhere (greedy cover: most uncovered kinds
+/// first, then the smaller file, then the plain one); for the variation tables and CFF2 every
+/// repository file that has the table.  input index -> table kind -> names.
+fn champions(analyses: &[(String, usize, Analysis)]) -> BTreeMap<usize, Champ> {
+    // table kind -> input -> names
+    let mut per: BTreeMap<String, BTreeMap<usize, BTreeSet<String>>> = BTreeMap::new();
+    for (i, (_, _, an)) in analyses.iter().enumerate() {
+        for f in &an.fields {
+            if f.level == "table" && f.role != "value" && f.name != "hook" {
+                per.entry(f.tbl.clone()).or_default().entry(i).or_default().insert(norm_name(&f.name));
+            }
+        }
+    }
+    let mut out: BTreeMap<usize, Champ> = BTreeMap::new();
+    // the variation tables and CFF2 live in a handful of small fonts: every repository file that has one stands for it
+    const DENSE: [&str; 9] = ["fvar", "avar", "gvar", "cvar", "HVAR", "VVAR", "MVAR", "STAT", "CFF2"];
+    for (tbl, inputs) in &per {
+        if DENSE.contains(&tbl.as_str()) {
+            for (i, names) in inputs {
+                let name = &analyses[*i].0;
+                if !name.contains('#') && !name.contains('(') {
+                    out.entry(*i).or_default().insert(tbl.clone(), names.clone());
+                }
+            }
+        }
+    }
+    for (tbl, inputs) in per {
+        let mut todo: BTreeSet<String> = inputs.values().flatten().cloned().collect();
+        while !todo.is_empty() {
+            let best = inputs
+                .iter()
+                .map(|(i, names)| (names.intersection(&todo).count(), *i))
+                .filter(|x| x.0 > 0)
+                .max_by_key(|(n, i)| {
+                    let (name, len, _) = &analyses[*i];
+                    (*n, std::cmp::Reverse(*len), !(name.contains('#') || name.contains('(')), std::cmp::Reverse(*i))
+                });
+            let (_, i) = match best {
+                Some(b) => b,
+                None => break,
+            };
+            let got: BTreeSet<String> = inputs[&i].intersection(&todo).cloned().collect();
+            for g in &got {
+                todo.remove(g);
+            }
+            out.entry(i).or_default().entry(tbl.clone()).or_default().extend(got);
+        }
+    }
+    out
+}
+
+fn load_champ(outdir: &str, input_idx: usize) -> Champ {
+    let v: Value = std::fs::read_to_string(format!("{}/champions.json", outdir)).ok().and_then(|s| serde_json::from_str(&s).ok()).unwrap_or(json!({}));
+    let mut c = Champ::new();
+    if let Some(m) = v.get(input_idx.to_string()).and_then(|x| x.as_object()) {
+        for (tbl, names) in m {
+            c.insert(tbl.clone(), names.as_array().map(|a| a.iter().filter_map(|x| x.as_str().map(|s| s.to_string())).collect()).unwrap_or_default());
+        }
+    }
+    c
+}
+
 struct Planner<'a> {
     an: &'a Analysis,
     seed: u64,
@@ -402,8 +493,21 @@ impl<'a> Planner<'a> {
         }
         Planner { an, seed, input_hash: hs(name), by, n_struct }
     }
-    fn cands(&self, a: &Abs) -> &[usize] {
-        self.by.get(&(a.role.clone(), a.level.clone())).map(|v| v.as_slice()).unwrap_or(&[])
+    /// fields an abstract fault can be instantiated on (structural first, hook last) and how many of
+    /// them are structural; a reference class needs a field that has the reference
+    fn cands(&self, a: &Abs) -> (Vec<usize>, usize) {
+        let c = self.by.get(&(a.role.clone(), a.level.clone())).cloned().unwrap_or_default();
+        let ns = *self.n_struct.get(&(a.role.clone(), a.level.clone())).unwrap_or(&0);
+        if a.k == "Overwrite" && !faults::class_applies(&a.vc, &a.role) {
+            return (Vec::new(), 0);
+        }
+        if a.k == "Overwrite" && faults::is_ref_class(&a.vc) {
+            let c: Vec<usize> = c.into_iter().filter(|&i| faults::has_ref(&a.vc, self.an.fields[i].selfv, self.an.fields[i].parentv)).collect();
+            let n = c.len();
+            (c, n)
+        } else {
+            (c, ns)
+        }
     }
     fn pick<'b>(&self, c: &'b [usize], salt: &[u64]) -> Option<usize> {
         if c.is_empty() {
@@ -419,12 +523,12 @@ impl<'a> Planner<'a> {
         let recs = &self.an.recs;
         match a.k.as_str() {
             "Overwrite" | "Truncate" => {
-                let c = self.cands(a);
+                let (c, _) = self.cands(a);
                 let c2: Vec<usize> = match near {
                     Some(t) => c.iter().copied().filter(|&i| self.an.fields[i].tbl == t).collect(),
                     None => Vec::new(),
                 };
-                let fi = if !c2.is_empty() { self.pick(&c2, &[ai as u64, salt, 1])? } else { self.pick(c, &[ai as u64, salt, 2])? };
+                let fi = if !c2.is_empty() { self.pick(&c2, &[ai as u64, salt, 1])? } else { self.pick(&c, &[ai as u64, salt, 2])? };
                 Some(self.of_field(a, fi))
             }
             "RemoveTable" => Some(CF::Rm(self.pick(&(0..recs.len()).collect::<Vec<_>>(), &[ai as u64, salt, 3])?)),
@@ -451,7 +555,9 @@ impl<'a> Planner<'a> {
     }
 }
 
-fn build_plan(tier: &str, seed: u64, name: &str, an: &Analysis, cases: &Cases) -> Vec<Job> {
+/// `champ`: table kind -> normalised field names this input stands for in the quick tier (every
+/// structural field of these that is not a plain value is crossed with every value class)
+fn build_plan(tier: &str, seed: u64, name: &str, an: &Analysis, cases: &Cases, champ: &Champ) -> Vec<Job> {
     let quick = tier == "quick";
     let (singles, pairs, triples) = cases;
     let pl = Planner::new(an, seed, name);
@@ -460,8 +566,8 @@ fn build_plan(tier: &str, seed: u64, name: &str, an: &Analysis, cases: &Cases) -
     for (ai, a) in singles.iter().enumerate() {
         match a.k.as_str() {
             "Overwrite" | "Truncate" => {
-                let c = pl.cands(a);
-                let ns = *pl.n_struct.get(&(a.role.clone(), a.level.clone())).unwrap_or(&0);
+                let (c, ns) = pl.cands(a);
+                let c = &c[..];
                 let trunc = a.k == "Truncate";
                 let chosen: Vec<usize> = if a.level == "dir" {
                     if !trunc {
@@ -471,8 +577,19 @@ fn build_plan(tier: &str, seed: u64, name: &str, an: &Analysis, cases: &Cases) -
                         sample(c, k, &[seed, pl.input_hash, ai as u64, 7])
                     }
                 } else if quick {
-                    let k = if trunc { 1 } else { 2 };
-                    sample(c, k, &[seed, pl.input_hash, ai as u64, 8])
+                    // seeded picks per (role, class); reference classes: up to 12 of the few fields that have
+                    // the reference; and everything this input is the champion for
+                    let k = if trunc { 1 } else if faults::is_ref_class(&a.vc) { 12 } else { 2 };
+                    let mut v = sample(c, k, &[seed, pl.input_hash, ai as u64, 8]);
+                    if !trunc && a.role != "value" {
+                        v.extend(c[..ns].iter().copied().filter(|&fi| {
+                            let f = &an.fields[fi];
+                            champ.get(&f.tbl).map_or(false, |names| names.contains(&norm_name(&f.name)))
+                        }));
+                        v.sort();
+                        v.dedup();
+                    }
+                    v
                 } else {
                     // every structural field, a sample of the hook fields
                     let mut v = if trunc { sample(&c[..ns], 8, &[seed, pl.input_hash, ai as u64, 9]) } else { c[..ns].to_vec() };
@@ -727,7 +844,7 @@ fn load_env(tier: &str, seed: u64, cases: &str, outdir: &str, input_idx: usize) 
     let specs = input_specs(tier, seed);
     let input = load_input(&specs[input_idx]).unwrap_or_else(|| panic!("input {} cannot be built", specs[input_idx].name));
     let an = Analysis::from_json(&serde_json::from_str(&std::fs::read_to_string(format!("{}/analysis.{}.json", outdir, input_idx)).expect("analysis file")).expect("analysis json"));
-    let jobs = build_plan(tier, seed, &input.name, &an, &load_cases(cases));
+    let jobs = build_plan(tier, seed, &input.name, &an, &load_cases(cases), &load_champ(outdir, input_idx));
     Env { input, an, jobs }
 }
 
@@ -898,6 +1015,25 @@ fn tail(s: &str) -> String {
     t[t.len().saturating_sub(300)..].to_string()
 }
 
+/// The event of a (job, group) whose process died (outcome OOM / StackOverflow / Timeout / Abort): no
+/// observation, in any group.  A Container event carries the same fields as one that returned
+/// (no view: `big`, empty facts), so that the judge reads every event the same way.
+#[allow(clippy::too_many_arguments)]
+fn died_event(case: &str, input: &Value, kind: &Value, job: usize, g: usize, faults: Value, patches: Value, class: &str, msg: &str) -> Value {
+    let nf = faults.as_array().map_or(0, |x| x.len());
+    let mut a = json!({"input": input, "kind": kind, "job": job, "g": GROUPS[g], "nf": nf, "faults": faults, "base": ["", 0, 0], "min": [], "changed": true, "patches": patches});
+    let mut o = json!({"oc": class, "ok": 0, "err": 0, "panics": [], "pmsg": [], "msg": msg});
+    if g == 0 {
+        a["view"] = json!({"flen": 0, "hd": [], "members": []});
+        a["big"] = json!(true);
+        a["slices"] = json!([]);
+        a["inflated"] = json!([]);
+        a["indep"] = json!("");
+        o["facts"] = json!({"read": "Skipped", "kind": "", "prov": [], "tags": [], "tabs": [], "absent": "Skipped"});
+    }
+    json!({"i": 0, "case": case, "ev": if g == 0 { "Container" } else { "Group" }, "a": a, "o": o})
+}
+
 fn supervisor(tier: &str, seed: u64, cases: &str, outdir: &str, nworkers: usize) {
     std::fs::create_dir_all(outdir).expect("outdir");
     let exe = std::env::current_exe().expect("exe");
@@ -930,9 +1066,42 @@ fn supervisor(tier: &str, seed: u64, cases: &str, outdir: &str, nworkers: usize)
     let mut plan_jobs = 0usize;
     let mut fields_total = 0usize;
     let mut per_input = Vec::new();
+    let analyses: Vec<(String, usize, Analysis)> = specs
+        .iter()
+        .enumerate()
+        .map(|(i, s)| {
+            let v: Value = serde_json::from_str(&std::fs::read_to_string(format!("{}/analysis.{}.json", outdir, i)).unwrap()).unwrap();
+            (s.name.clone(), v["buflen"].as_u64().unwrap_or(0) as usize, Analysis::from_json(&v))
+        })
+        .collect();
+    // quick tier: the inputs that stand for each table kind (see `champions`); thorough takes every structural field anyway
+    let champs = if tier == "quick" { champions(&analyses) } else { BTreeMap::new() };
+    let champs_json: serde_json::Map<String, Value> = champs.iter().map(|(i, c)| (i.to_string(), json!(c))).collect();
+    std::fs::write(format!("{}/champions.json", outdir), serde_json::to_string(&Value::Object(champs_json)).unwrap()).expect("champions");
+    // structural fields per table kind x role, reference-bearing fields per kind of field (for the vacuity check of the driver)
+    let mut struct_fields: BTreeMap<String, BTreeMap<String, u64>> = BTreeMap::new();
+    let mut ref_fields: BTreeMap<String, u64> = BTreeMap::new();
+    let mut planned: BTreeMap<String, BTreeMap<String, u64>> = BTreeMap::new();
     for (i, s) in specs.iter().enumerate() {
-        let an = Analysis::from_json(&serde_json::from_str(&std::fs::read_to_string(format!("{}/analysis.{}.json", outdir, i)).unwrap()).unwrap());
-        let n = build_plan(tier, seed, &s.name, &an, &cases_v).len();
+        let an = &analyses[i].2;
+        for f in &an.fields {
+            if f.level == "table" && f.name != "hook" {
+                *struct_fields.entry(f.tbl.clone()).or_default().entry(f.role.to_string()).or_insert(0) += 1;
+            }
+            if f.selfv >= 0 || f.parentv >= 0 {
+                *ref_fields.entry(format!("{}:{}:{}", if f.level == "dir" { "dir" } else { f.tbl.as_str() }, f.role, norm_name(&f.name))).or_insert(0) += 1;
+            }
+        }
+        let plan = build_plan(tier, seed, &s.name, an, &cases_v, champs.get(&i).unwrap_or(&Champ::new()));
+        for j in &plan {
+            if let [CF::Ov(fi, _)] = j.faults[..] {
+                let f = &an.fields[fi];
+                if f.level == "table" && f.name != "hook" {
+                    *planned.entry(f.tbl.clone()).or_default().entry(f.role.to_string()).or_insert(0) += 1;
+                }
+            }
+        }
+        let n = plan.len();
         plan_jobs += n;
         fields_total += an.fields.len();
         per_input.push(json!([s.name, an.fields.len(), n]));
@@ -1056,10 +1225,10 @@ fn supervisor(tier: &str, seed: u64, cases: &str, outdir: &str, nworkers: usize)
                         }
                     }
                     bump(&format!("died_{}", class2), 1);
-                    let nfm = faults.as_array().map_or(0, |x| x.len());
-                    json!({"i": 0, "case": case_id(inp, j), "ev": if g == 0 { "Container" } else { "Group" },
-                           "a": {"input": a["input"], "kind": a["kind"], "job": j, "g": GROUPS[g], "nf": nfm, "faults": faults, "base": ["", 0, 0], "min": [], "minimised": min, "from_nf": nf, "changed": true, "patches": patches},
-                           "o": {"oc": class2, "ok": 0, "err": 0, "panics": [], "pmsg": [], "msg": format!("{} [site {}]", tail(&stderr2), sup::site_from_text(&stderr2).unwrap_or_default())}})
+                    let mut ev = died_event(&case_id(inp, j), &a["input"], &a["kind"], j, g, faults, patches, class2, &format!("{} [site {}]", tail(&stderr2), sup::site_from_text(&stderr2).unwrap_or_default()));
+                    ev["a"]["minimised"] = json!(min);
+                    ev["a"]["from_nf"] = json!(nf);
+                    ev
                 };
                 let mut f = std::fs::OpenOptions::new().create(true).append(true).open(&trace).expect("append");
                 let ends_nl = std::fs::read(&trace).map(|b| b.last().map_or(true, |&c| c == b'\n')).unwrap_or(true);
@@ -1085,6 +1254,10 @@ fn supervisor(tier: &str, seed: u64, cases: &str, outdir: &str, nworkers: usize)
     tot.insert("fields".into(), json!(fields_total));
     tot.insert("chunks".into(), json!(chunks.len()));
     tot.insert("workers".into(), json!(nworkers));
+    tot.insert("struct_fields_per_table_role".into(), json!(struct_fields));
+    tot.insert("planned_single_overwrites_per_table_role".into(), json!(planned));
+    tot.insert("ref_fields".into(), json!(ref_fields));
+    tot.insert("champions".into(), json!(champs.iter().map(|(i, c)| (specs[*i].name.clone(), c.iter().map(|(t, n)| (t.clone(), n.len())).collect::<BTreeMap<_, _>>())).collect::<BTreeMap<_, _>>()));
     std::fs::write(format!("{}/inputs.json", outdir), serde_json::to_string(&per_input).unwrap()).unwrap();
     println!("{}", Value::Object(tot));
 }
@@ -1104,7 +1277,7 @@ fn replay(mc: &str, trace: &str, mism: &str) {
             let old: Vec<u8> = c["old"].as_array().unwrap().iter().map(|x| x.as_u64().unwrap() as u8).collect();
             let w = old.len() as u8;
             let ov = old.iter().fold(0u64, |a, &b| (a << 8) | b as u64);
-            let nv = faults::new_value(c["vc"].as_str().unwrap(), ov, w, c["flen"].as_u64().unwrap(), c["tlen"].as_u64().unwrap());
+            let nv = faults::new_value(c["vc"].as_str().unwrap(), ov, w, c["flen"].as_u64().unwrap(), c["tlen"].as_u64().unwrap(), c["sv"].as_i64().unwrap_or(-1), c["pv"].as_i64().unwrap_or(-1));
             let got: Vec<u64> = (0..w as usize).map(|k| (nv >> (8 * (w as usize - 1 - k))) & 0xff).collect();
             if json!(got) != c["new"] {
                 mw.write(&json!({"what": "value class", "case": c, "got": got}));
@@ -1170,6 +1343,20 @@ fn main() {
         }
         Some("one") => one(args[2].clone(), u(3) as u64, args[4].clone(), args[5].clone(), u(6), u(7), u(8), args.get(9).map(|m| m.parse().expect("mask"))),
         Some("exec") => exec(&args[2]),
+        Some("died-events") => {
+            // the events the supervisor writes for a dead process, for the binding self-check of the driver:
+            // every death class in the container group and in one other group
+            let mut i = 0;
+            for g in [0usize, 7] {
+                for class in ["OOM", "StackOverflow", "Timeout", "Abort"] {
+                    let fault = json!([["Overwrite", "length", "hi7f", "dir", "wOF2", "totalSfntSize", 16, 4, "000014b4", "7fffffff"]]);
+                    let mut ev = died_event(&format!("selftest-died-{}-{}", GROUPS[g], class), &json!("selftest"), &json!("woff2"), 0, g, fault, json!([["patch", 16, "7fffffff"]]), class, "planted [site ]");
+                    ev["i"] = json!(2_000_000_000u64 + i);
+                    i += 1;
+                    println!("{}", ev);
+                }
+            }
+        }
         Some("probe") => {
             sup::install_hook();
             let filter = args.get(2).cloned().unwrap_or_default();
